@@ -121,7 +121,10 @@ def apply_contract(interp, c, func, args, kwargs):
     old = None
     if c.old is not None:
         old = _call_pred(interp, c.old, env)
-    if c.event is not None:
+    if isinstance(c.event, tuple):
+        # (name, payload): the payload predicate is evaluated now, on the state at the call
+        st.emit(c.event[0], dict(bound), _call_pred(interp, c.event[1], env))
+    elif c.event is not None:
         st.emit(c.event, dict(bound))
     # deterministic `when` conditions are about the pre-state: evaluate them before the frame is havocked
     whens = []
@@ -135,6 +138,8 @@ def apply_contract(interp, c, func, args, kwargs):
     def raise_(exc_cls, spec):
         exc = _make_exc(interp, exc_cls, spec, env)
         ens = spec.get('ensures')
+        if isinstance(ens, tuple) and callable(ens[1]):      # (clause, when): see the same form in `ensures`
+            ens = ens[0] if ens[1](interp.fn_name) else None
         if c.modifies and ens is not None:
             # the frame was havocked: what the exceptional postcondition says about it is all that is known
             envx = _clause_env(bound, ghosts, {'exc': exc, 'old': old, 'trace': st.trace, 'ghost': st.ghost})
@@ -165,7 +170,7 @@ def apply_contract(interp, c, func, args, kwargs):
         ghosts = dict(ghosts, yielded=ys)
         result = SIter(ys, 0)
     if c.event is not None:
-        st.emit(c.event + ':returned', result)
+        st.emit((c.event[0] if isinstance(c.event, tuple) else c.event) + ':returned', result)
     env2 = _clause_env(bound, ghosts, {'result': result, 'old': old, 'trace': st.trace, 'ghost': st.ghost})
     for name, clause in c.ensures.items():
         if isinstance(clause, tuple) and callable(clause[1]):
@@ -193,6 +198,9 @@ def apply_contract(interp, c, func, args, kwargs):
 
 
 def _make_exc(interp, exc_cls, spec, env):
+    sh = spec.get('shape')
+    if isinstance(sh, Ty):          # an arbitrary exception object of this shape
+        return sh.make(interp, 'exc')
     mk = spec.get('make')
     if mk is not None:
         return _call_pred(interp, mk, env)
@@ -510,6 +518,8 @@ def _run_path(interp, reg, c, func, rep):
                 st.oblige('%s : raises[%s] is a declared outcome' % (fname, _exc_name(exc_cls)), True,
                           {'kind': 'exc-post'})
                 ens = spec.get('ensures')
+                if isinstance(ens, tuple) and callable(ens[1]):
+                    ens = ens[0]
                 if ens is not None:
                     _oblige_clause(interp, '%s : raises[%s] ensures' % (fname, _exc_name(exc_cls)),
                                    ens, env2, {'kind': 'exc-post'})
